@@ -364,6 +364,38 @@ CORPUS = [
 ]
 
 
+def gen_one_to_two_case(rng):
+    """The one-difference shortcut (D1Or0, active once the best distance is 0 or 1) facing references at distance 2 that look
+    almost like one difference: one base of the query replaced by TWO other bases (one base longer), two adjacent bases replaced by
+    ONE other base (one base shorter), a substitution next to an indel. The best reference is at distance exactly 1 and comes
+    first by shared 4-mers; the decoys must not be admitted as ties."""
+    L = rng.randrange(24, 70)
+    q = rseq(rng, L)
+    other = lambda c, n=1: "".join(rng.choice([x for x in ACGT if x != c]) for _ in range(n))
+    # (a substitution near an end destroys fewer 4-mers than the decoys do: the best reference is then scanned FIRST)
+    p0 = rng.choice([0, 1, L - 2, L - 1]) if rng.random() < 0.6 else rng.randrange(2, L - 2)
+    best = q[:p0] + other(q[p0]) + q[p0 + 1:]                      # one substitution: distance 1
+    refs = [best]
+    for _ in range(rng.randrange(2, 6)):
+        p = rng.randrange(1, L - 3)
+        k = rng.random()
+        if k < 0.4:
+            refs.append(q[:p] + other(q[p], 2) + q[p + 1:])         # x -> yz   (|ref| = |q| + 1, distance 2)
+        elif k < 0.7:
+            refs.append(q[:p] + other(q[p]) + q[p + 2:])            # xy -> z   (|ref| = |q| - 1, distance 2) when z differs from both
+        elif k < 0.85:
+            refs.append(q[:p] + other(q[p]) + q[p + 1:p + 6] + q[p + 7:])   # substitution + deletion a few bases apart
+        else:
+            refs.append(q[:p] + rng.choice(ACGT) + q[p:])           # a true single insertion: a genuine tie at distance 1
+    # the candidates are scanned by decreasing number of shared 4-mers, equal counts in DEcreasing index order: the best
+    # reference is put last (scanned first among equals), first, or anywhere
+    k = rng.random()
+    rest = sorted(refs[1:], key=lambda r: rng.random())
+    refs = rest + refs[:1] if k < 0.5 else refs[:1] + rest if k < 0.75 else sorted(refs, key=lambda r: rng.random())
+    nt = rng.randrange(2, 8)
+    return dict(q=q, refs=refs, taxids=[rng.randrange(1, nt + 1) for _ in refs], taxo=rtaxo(rng, nt), index=True, tag="one-to-two")
+
+
 def gen_indel_tie_case(rng):
     """ties at a best distance k >= 2 made of indels of ONE kind only (|len(ref) - len(query)| = k) next to substitution-only ties; also
     RNA (u for t) and very short queries (0 / 1 symbol is not a legal sequence for the kernels: from 2)"""
@@ -664,10 +696,13 @@ def evaluate(ctx, cases, broken, label, report=True, corr=True, shard=None):
                 outside.append(i)
             continue
         if not o["kok"]:
-            # the kernels disagree with each other on a pair: property C09's business; set the case aside
+            # the kernels disagree with each other on a pair of plain a/c/g/t sequences (the one-difference shortcut against the LCS
+            # kernel; both files are anchors of this property too): counted, and the case is still judged - when the search then
+            # returns other references than the exhaustive comparison, the property is broken for the user whatever kernel is to blame
             stats["kernel_inconsistent"] += 1
             stats.setdefault("kernel_inconsistent_example", o["kbad"])
-            continue
+            if not any(k[0] in ("fc", "fc2", "identify") for k in oracle(c, o)):
+                continue
         if c.get("index") and o.get("idkind") == "ok":
             dd = [a - l for l, a in o["qd"]]
             if any(min(dd) >= len(c["refs"][b]) for b in range(len(dd)) if dd[b] == min(dd)):
@@ -790,7 +825,7 @@ def run(ctx, broken):
     cases += [gen_iupac_case(rng) for _ in range(n_amb)]
     cases += [gen_lowcomplexity_case(rng) for _ in range(4 if ctx.quick else 80)]
     cases += [gen_beyond_case(rng) for _ in range(40 if ctx.quick else 800)]
-    cases += [dict(c) for c in CORPUS3] + [gen_indel_tie_case(rng) for _ in range(24 if ctx.quick else 500)]
+    cases += [dict(c) for c in CORPUS3] + [gen_indel_tie_case(rng) for _ in range(24 if ctx.quick else 500)] + [gen_one_to_two_case(rng) for _ in range(40 if ctx.quick else 600)]
     cases += [gen_long_case(rng) for _ in range(6 if ctx.quick else 150)]
     # command-level groups (one database, several queries): their in-process runs are ordinary cases of the main batch
     groups = [dict(g) for g in CMD_CORPUS] + [gen_cmd_group(rng, big=(k % 4 == 3)) for k in range(10 if ctx.quick else 120)]
